@@ -256,6 +256,11 @@ def check_config(ctx, F, tag, text, lists):
     ctx.ob("C07.R3.zero-block-padding", "rl_vector::RLBuilder::flush" + tag, loc(fb.raw["span"]), len(rs) == 1 and m(Const(0), fb.term_of_operand(rs[0]["args"][2])), "constant",
            "closed blocks are padded by data.resize(.., 0): %s" % (len(rs) == 1))
     check_rl_block_fit(ctx, F, tag, "C07.R3")
+    from core import Relabel
+    c06.check_config(Relabel(ctx, {"C06.R2.basic.bytes-": "C07.R3.padding.bytes-"}), F, tag)
+    import c09
+    c09.check_wm_load_width(ctx, F, tag, rule="C07.R5.wm-core-load-width")
+    c19.check_partial_unit_counts(ctx, F, tag, prefix="C07.R5")     # a file the library wrote decodes: the loader's count check matches the builder
     need(text, r"bytes of padding with byte value 0", "byte padding")
     need(text, r"Any unused bits in the last element must be set to `0`", "unused bits")
     ctx.note("zero byte padding is decided by C06.R2.basic.bytes-body")
